@@ -13,6 +13,8 @@
 From Coq Require Import ZArith List Bool.
 From PV.Model Require Import Alloc Pack CeAlloc Checksums.
 From PV.Proofs Require Import AllocProofs PackProofs CeAllocProofs ChecksumsArithProofs.
+From PV.Model Require Account.
+From PV.Proofs Require AccountProofs.
 From PV.Gen Require Import GenFun.
 Import ListNotations.
 Local Open Scope Z_scope.
@@ -60,3 +62,31 @@ Theorem C04_nonvacuous :
   bump 16 [1; 1; 1; 2; 2; 3; 1; 5] = [(16, 1); (17, 1); (18, 1); (19, 2); (21, 2); (23, 3); (26, 1); (27, 5)] /\
   bump_end 16 [1; 1; 1; 2; 2; 3; 1; 5] = 32.
 Proof. exact bump_nonvacuous. Qed.
+
+(* ---- the two ways of computing the allocation agree: Model/Account.v --------------------------
+   A state machine of the plain ISO9660 core: a directory tree with file lengths, the path table
+   size/extents and pvd.space_size, edited by add_fp / add_directory / rm_file / rm_directory with
+   EXACTLY the per-edit byte deltas of the source (one ceiling_div per edit; Pack.dir_add /
+   dir_remove for directory growth; the TRANSLATED add_to_ptr_size / remove_from_ptr_size /
+   ptr_record_length; the name checks of Names.v), against the from-scratch layout
+   objects = [16;1;1;1;ptr_ext;ptr_ext] ++ directory blocks (BFS) ++ file blocks (BFS).
+   For EVERY history, valid and refused edits mixed: *)
+Theorem C04_declared_size_is_exact : forall ops, Account.space (Account.run Account.init ops) = Account.layout_end (Account.run Account.init ops).
+Proof. exact AccountProofs.C04_declared_size_is_exact. Qed.
+
+Theorem C04_objects_disjoint_and_inside : forall ops,
+  let s := Account.run Account.init ops in
+  ForallOrdPairs disjoint (Account.layout s) /\
+  Forall (fun iv => 0 <= fst iv /\ fst iv + snd iv <= Account.space s) (Account.layout s).
+Proof. exact AccountProofs.C04_objects_disjoint_and_inside. Qed.
+
+Theorem C04_account_invariant : forall ops, AccountProofs.Inv (Account.run Account.init ops).
+Proof. exact AccountProofs.run_inv. Qed.
+
+Theorem C04_refused_edit_changes_nothing : forall s o s', Account.step s o = (s', false) -> s' = s.
+Proof. exact AccountProofs.refused_unchanged. Qed.
+
+Theorem C04_account_nonvacuous :
+  AccountProofs.Inv (Account.run Account.init AccountProofs.ex_ops) /\ Account.space (Account.run Account.init (firstn 17 AccountProofs.ex_ops)) = 64 /\
+  Account.layout_end (Account.run Account.init (firstn 17 AccountProofs.ex_ops)) = 64.
+Proof. exact AccountProofs.ex_history_inv. Qed.
